@@ -321,6 +321,22 @@ pub fn run(ctx: &Ctx) -> Rep {
         for s in ["", "AS AS AS", "A♠ K♠ Q♠ J♠ T♠", "2c 2c 3d xx 4h", "  9♣  "] {
             check_text(&mut st, s);
         }
+        // texts with more tokens than there are cards: a card may first appear after any number of blanks or repeats
+        let card_tok = |i: u8| format!("{}{}", model::RANK_CHARS[model::rank_of(i) as usize], ['s', 'h', 'd', 'c'][model::suit_of(i) as usize]);
+        for lead in [51usize, 52, 53, 64, 200] {
+            check_text(&mut st, &format!("{} 2c", vec!["xx"; lead].join(" ")));
+            check_text(&mut st, &format!("{} Kh", vec!["As"; lead].join(" ")));
+        }
+        check_text(&mut st, &(0..52u8).map(|i| format!("{0} {0}", card_tok(i))).collect::<Vec<_>>().join(" "));
+        check_text(&mut st, &(0..52u8).map(|i| format!("zz {}", card_tok(i))).collect::<Vec<_>>().join(" "));
+        for _ in 0..ctx.pick(2, 200, 2000) {
+            let k = 40 + rng.below(200);
+            let mut v: Vec<String> = Vec::new();
+            for _ in 0..k {
+                v.push(if rng.chance(1, 3) { "??".to_string() } else { card_tok(rng.below(52) as u8) });
+            }
+            check_text(&mut st, &v.join(" "));
+        }
         let x = st.x;
         rep.merge(st.rep);
         rep.add("texts_converted_to_sets", x.texts);
